@@ -252,6 +252,25 @@ func c19Run(c *core.Ctx) {
 			rec(append(names, n))
 		}
 	}
+	// the empty list: an archive without entries consists of the end-of-central-
+	// directory record alone (with and without an archive comment)
+	if c.Mine(0) {
+		for _, comment := range []string{"", "x", strings.Repeat("archive comment ", 8)} {
+			var w bytes.Buffer
+			zw := zip.NewWriter(&w)
+			zw.SetComment(comment)
+			zw.Close()
+			archives++
+			cs.In, cs.Limit = w.Bytes(), 0
+			c.R.States++
+			c.R.Transitions++
+			c.R.Evals++
+			c.R.Nontrivial++
+			if c.Check(cs) {
+				c.Sample("A:empty-list", fmt.Sprintf("no entries, comment %dB", len(comment)))
+			}
+		}
+	}
 	for _, n := range menu {
 		if c.Mine(0) {
 			for st := 0; st < 4; st++ {
